@@ -166,10 +166,12 @@ func (s *Service) builderBid(ctx context.Context,
 	var firstBid *builderspec.VersionedSignedBuilderBid
 	var lastBid *builderspec.VersionedSignedBuilderBid
 	bids := 0
+	// builderBids holds the best bid that has been passed on for each builder.
+	builderBids := make(map[phase0.BLSPubKey]*builderspec.VersionedSignedBuilderBid)
 
 	log := s.log.With().Str("relay", provider.Address()).Logger()
 	for ; ; time.Sleep(s.bidGap) {
-		firstBid, lastBid, bids = s.builderBidAttempt(ctx, &log, span, provider, respCh, errCh, slot, parentHash, pubkey, relayConfig, firstBid, lastBid, bids)
+		firstBid, lastBid, bids = s.builderBidAttempt(ctx, &log, span, provider, respCh, errCh, slot, parentHash, pubkey, relayConfig, firstBid, lastBid, bids, builderBids)
 
 		if time.Until(deadline) <= s.bidGap {
 			log.Trace().Int64("remaining_ms", time.Until(deadline).Milliseconds()).Msg("Not enough time to re-request bid")
@@ -193,6 +195,7 @@ func (s *Service) builderBidAttempt(ctx context.Context,
 	firstBid *builderspec.VersionedSignedBuilderBid,
 	lastBid *builderspec.VersionedSignedBuilderBid,
 	bids int,
+	builderBids map[phase0.BLSPubKey]*builderspec.VersionedSignedBuilderBid,
 ) (
 	*builderspec.VersionedSignedBuilderBid,
 	*builderspec.VersionedSignedBuilderBid,
@@ -271,6 +274,21 @@ func (s *Service) builderBidAttempt(ctx context.Context,
 
 	if lastBid == nil || bidBetter(lastBid, builderBid) {
 		lastBid = builderBid
+	}
+
+	// Builder configurations can score a bid from one builder above a higher-value bid from another, so a bid is
+	// passed on whenever it improves on what this relay has supplied for the same builder; the scoring decides the rest.
+	builder, err := builderBid.Builder()
+	if err != nil {
+		errCh <- &builderBidError{
+			provider: provider,
+			err:      err,
+		}
+
+		return firstBid, lastBid, bids
+	}
+	if builderLastBid, exists := builderBids[builder]; !exists || bidBetter(builderLastBid, builderBid) {
+		builderBids[builder] = builderBid
 		respCh <- &builderBidResponse{
 			bid:      builderBid,
 			provider: provider,
